@@ -81,7 +81,24 @@ def jobs(tier, seed, binp):
                 break
         fm = rng.choice([0, 0, 1 << rng.randrange(N), (1 << rng.randrange(N)) | (1 << rng.randrange(N))])
         J.append((binp, "rand", W, N, fm, "".join(ops), seed * 100 + i, cnt, lim))
+    # the block processor on top of the same controlled pool: every call returns under every schedule, the output reads back
+    # (fail mask 0), and a compressor that fails in a worker on the first / last block (or the tail end, i.e. the fragment
+    # block) of any one file makes some call of the submitter fail.  N is the backlog here.
+    bcap = 700 if tier == "quick" else 40000
+    for spec in BP_SPECS if tier == "quick" else BP_SPECS + BP_SPECS_MORE:
+        nfiles = spec.count(",") + 1
+        masks = [0] + [1 << k for k in range(nfiles)] + [1 << (8 + k) for k in range(nfiles)]
+        for W in (1, 2, 3):
+            for fm in masks:
+                N = rng.choice([2, 3, 5, 8])
+                J.append((binp, "dfs", W, N, fm, "B:" + spec, (1 if W > 1 else 2), bcap, lim))
+                if tier != "quick":
+                    J.append((binp, "rand", W, N, fm, "B:" + spec, seed * 1000 + len(J), 4000, lim))
     return J
+
+
+BP_SPECS = ["9000A", "100a,200b", "4096A,4096B,100c", "8192A,300b,4096C"]
+BP_SPECS_MORE = ["12288A", "5000A,5000A,700b", "4096z,4200A,50c,50c", "300a,300b,300c,300d,300e,300f,300g,300h,300i,300j,300k,300l,300m,300n,8300A"]
 
 
 def main(tier, seed, scale=1.0):
@@ -95,7 +112,7 @@ def main(tier, seed, scale=1.0):
         s = o["summ"] or {}
         res.evaluations += s.get("executions", 0)
         nt += s.get("nontrivial", 0)
-        key = "%s_W%d_N%d" % ("complete" if (o["mode"] == "dfs" and o["a"] == -1) else ("bounded%d" % o["a"] if o["mode"] == "dfs" else "random"), o["W"], o["N"])
+        key = "%s%s_W%d_N%d" % ("blockproc_" + ("failing_" if o["fm"] else "") if o["prog"].startswith("B:") else "", "complete" if (o["mode"] == "dfs" and o["a"] == -1) else ("bounded%d" % o["a"] if o["mode"] == "dfs" else "random"), o["W"], o["N"])
         res.add_class(key, s.get("executions", 0))
         if o["mode"] == "dfs" and s.get("complete"):
             complete_cfgs.append("W=%d N=%d fail=0x%x prog=%s %s: %d schedules" % (o["W"], o["N"], o["fm"], o["prog"],
@@ -133,8 +150,10 @@ def main(tier, seed, scale=1.0):
                 "<=3 and 2 workers/2 items when it finishes), preemption-bounded for 2-3 workers and 2-3 items, random schedules for 1-3 workers "
                 "and 3-5 items, every position of one failing item (and some pairs); non-trivial = execution with >=1 preemption of a runnable "
                 "thread that holds no lock; DFS executions are distinct by construction; oracle = history invariants checked in the execution + "
-                "deadlock detection by the scheduler")
-    res.samples = ["W=1 N=2 fail=item0 prog=SSDD: all schedules", "W=2 N=3 prog=SSDSDD: preemption bound 2", "W=3 N=5 random program 'SSGDSDSDD' with a failing item"]
+                "deadlock detection by the scheduler.  Block processor on the same pool (files fed through begin/append/end/finish with 1-3 workers, "
+                "backlog 2-8): every call returns, every file reads back, and with a compressor that fails in a worker on the first or last block "
+                "/ tail of one file (every file, both positions) some call of the submitter must fail and destroy must join all workers")
+    res.samples = ["block processor W=2 backlog=3 files 4096A,4096B,100c, compressor fails on the tail of file 2 (fragment block = last item)", "W=1 N=2 fail=item0 prog=SSDD: all schedules", "W=2 N=3 prog=SSDSDD: preemption bound 2", "W=3 N=5 random program 'SSGDSDSDD' with a failing item"]
     res.assumptions = ["interleavings at the granularity of the pool's mutex/condvar operations under a sequentially consistent scheduler",
                        "threadpool.c is compiled unmodified with -include of a macro header that renames the pthread calls"]
     res.extra["min_evaluations"] = 2000
